@@ -130,6 +130,8 @@ class Pair(RawPair):
         # encoder has not emitted a header block since (hpack.Encoder mishandles a second change then)
         self.hts = {'c': 0, 's': 0}
         self.max_data = 70000
+        self.cl = {}               # (side, sid) -> bytes of the declared content-length still to be sent
+        self.norm_in = {'c': True, 's': True}    # normalize_inbound_headers of that side (cookie joining)
 
     # ------------------------------------------------------------------
     def violate(self, key, detail=''):
@@ -410,7 +412,21 @@ def clean_fields(fs):
     return out
 
 
-def header_list(ch, kind, want_bad=False):
+def with_content_length(hdrs, exp, length):
+    """Insert a content-length field behind the pseudo-header fields of the call's list and of the expectation."""
+    def is_pseudo(n):
+        return (n[:1] == b':') if isinstance(n, bytes) else (n[:1] == ':')
+    i = 0
+    while i < len(hdrs) and is_pseudo(hdrs[i][0].strip() if hasattr(hdrs[i][0], 'strip') else hdrs[i][0]):
+        i += 1
+    j = 0
+    while j < len(exp) and exp[j][0][:1] == b':':
+        j += 1
+    v = b'%d' % length
+    return hdrs[:i] + [(b'content-length', v)] + hdrs[i:], exp[:j] + [(b'content-length', v)] + exp[j:]
+
+
+def header_list(ch, kind, want_bad=False, norm_in=True):
     """-> (materialised list for the call, expected received [(n, v)] or None if the list is not conformant)."""
     hk = {'final-request': 'request', 'push': 'push', 'final-response': 'response', 'info': 'informational',
           'trailers': 'trailers'}[kind]
@@ -431,7 +447,7 @@ def header_list(ch, kind, want_bad=False):
     hdrs = H.materialize(dressed)
     if verdict != H.OK:
         return hdrs, None, 'bad'
-    exp = [(n, v) for n, v, _ in H.expected_inbound(norm, True)]
+    exp = [(n, v) for n, v, _ in H.expected_inbound(norm, norm_in)]
     return hdrs, exp, 'ok'
 
 
@@ -535,7 +551,7 @@ def gen_call(ch, p, side, allow_close, allow_bad):
         if ch.chance(24):
             sid += 2 * ch.int(1, 3)
         es = ch.chance(90)
-        hdrs, exp, q = header_list(ch, 'final-request')
+        hdrs, exp, q = header_list(ch, 'final-request', norm_in=p.norm_in[p.other(side)])
         if q != 'ok':
             return
         kw = {}
@@ -547,9 +563,17 @@ def gen_call(ch, p, side, allow_close, allow_bad):
         if verdict != M.PERMIT and what not in INERT_REFUSALS:
             p.r.excluded['state-machine-refusal-not-generated'] += 1
             return
+        declared = None
+        if not es and ch.chance(56):
+            # a declared body length: the program then sends exactly that many payload bytes before END_STREAM
+            declared = ch.pick([0, 1, 5, 100, 20000])
+            hdrs, exp = with_content_length(hdrs, exp, declared)
 
         def ok(o, base):
             m.apply_send_headers(sid, what, es)
+            if declared is not None:
+                p.cl[(side, sid)] = declared
+                p.stats['content-length-declared'] += 1
             evs = [('RequestReceived', sid, exp, es, prio is not None)]
             if es:
                 evs.append(('StreamEnded', sid))
@@ -574,7 +598,7 @@ def gen_call(ch, p, side, allow_close, allow_bad):
         if sid is None:
             return
         hk = {'final': 'final-response', 'info': 'info', 'trailers': 'trailers'}[kind]
-        hdrs, exp, q = header_list(ch, hk)
+        hdrs, exp, q = header_list(ch, hk, norm_in=p.norm_in[p.other(side)])
         if q != 'ok':
             return
         verdict, what = m.send_headers_verdict(sid, kind, es)
@@ -583,9 +607,18 @@ def gen_call(ch, p, side, allow_close, allow_bad):
             return
         cls = {'final': 'ResponseReceived', 'info': 'InformationalResponseReceived',
                'trailers': 'TrailersReceived'}[kind]
+        if kind == 'trailers' and p.cl.get((side, sid), 0) > 0:
+            return       # trailers end the stream: the declared body has to be complete first
+        declared = None
+        if kind == 'final' and not es and verdict == M.PERMIT and ch.chance(56):
+            declared = ch.pick([0, 1, 5, 100, 20000])
+            hdrs, exp = with_content_length(hdrs, exp, declared)
 
         def ok(o, base):
             m.apply_send_headers(sid, what, es)
+            if declared is not None:
+                p.cl[(side, sid)] = declared
+                p.stats['content-length-declared'] += 1
             evs = [(cls, sid, exp, es, False)]
             if es:
                 evs.append(('StreamEnded', sid))
@@ -599,7 +632,7 @@ def gen_call(ch, p, side, allow_close, allow_bad):
             return
         if op == 'end':
             verdict, what = m.send_data_verdict(sid, True)
-            if verdict != M.PERMIT:
+            if verdict != M.PERMIT or p.cl.get((side, sid), 0) > 0:
                 return
 
             def ok(o, base):
@@ -624,12 +657,19 @@ def gen_call(ch, p, side, allow_close, allow_bad):
             n = max(0, min(w, mf) - over) + (1 if n == -2 else 0)
             n = min(n, p.max_data)
             p.stats['data-fills-window'] += 1
+        rem = p.cl.get((side, sid))
+        if rem is not None:
+            # declared content-length: never more than what is left of it, END_STREAM only with the last byte
+            n = min(n, rem)
+            es = n == rem and (es or ch.bool())
         body = bytes((i * 7 + n) & 0xff for i in range(min(n, 64))) + b'x' * max(0, n - 64)
         verdict, what = m.send_data_verdict(sid, es)
         if verdict != M.PERMIT:
             return
 
         def ok(o, base):
+            if rem is not None:
+                p.cl[(side, sid)] = rem - n
             if es:
                 m.get(sid).send_end()
             evs = [('DataReceived', sid, body, n + (0 if pad is None else pad + 1), es)]
@@ -729,7 +769,7 @@ def gen_call(ch, p, side, allow_close, allow_bad):
         promised = m.hi_local + 2 if m.hi_local else 2
         if ch.chance(24):
             promised += 2 * ch.int(1, 3)
-        hdrs, exp, q = header_list(ch, 'push')
+        hdrs, exp, q = header_list(ch, 'push', norm_in=p.norm_in[p.other(side)])
         if q != 'ok':
             return
         verdict, what = m.push_verdict(parent, promised)
